@@ -719,9 +719,17 @@ func (c CellC) String() string {
 }
 
 // VecC: content of a local array with per-element values.
-type VecC struct{ Elems []AV }
+type VecC struct {
+	Elems []AV
+	Top   string // non-empty: contents unknown (why)
+}
 
-func (v VecC) String() string { return "vec:" + VecV{v.Elems}.String() }
+func (v VecC) String() string {
+	if v.Top != "" {
+		return "vec:⊤(" + v.Top + ")"
+	}
+	return "vec:" + VecV{v.Elems}.String()
+}
 
 // SBPart is one piece written to a strings.Builder; Cond (if set) is the branch condition
 // under which it was written, Pol its polarity.
